@@ -4,7 +4,7 @@
 //! the calling thread for the synchronous code paths the checks use them with).
 
 use std::cell::RefCell;
-use std::sync::{Arc, Once};
+use std::sync::{Arc, Mutex, Once};
 
 type Handler = Box<dyn FnMut(&'static str)>;
 
@@ -14,16 +14,30 @@ thread_local! {
 
 static INSTALL: Once = Once::new();
 
+type GlobalHandler = Arc<dyn Fn(&'static str) + Send + Sync>;
+/// Handler for probe points hit on threads that have no thread-local handler
+/// (runtime workers of the async clients). One user at a time (`GLOBAL_GATE`).
+static GLOBAL: Mutex<Option<GlobalHandler>> = Mutex::new(None);
+static GLOBAL_GATE: Mutex<()> = Mutex::new(());
+
 pub fn install() {
     INSTALL.call_once(|| {
         repe::verif::set_probe(Some(Arc::new(|point: &'static str| {
-            LOCAL.with(|slot| {
+            let handled = LOCAL.with(|slot| {
                 if let Ok(mut g) = slot.try_borrow_mut()
                     && let Some(f) = g.as_mut()
                 {
                     f(point);
+                    return true;
                 }
+                false
             });
+            if !handled {
+                let g = GLOBAL.lock().unwrap_or_else(|e| e.into_inner()).clone();
+                if let Some(f) = g {
+                    f(point);
+                }
+            }
         })));
     });
 }
@@ -34,5 +48,16 @@ pub fn with_handler<R>(handler: Handler, body: impl FnOnce() -> R) -> R {
     LOCAL.with(|slot| *slot.borrow_mut() = Some(handler));
     let r = body();
     LOCAL.with(|slot| *slot.borrow_mut() = None);
+    r
+}
+
+/// Run `body` with `handler` receiving the probe hits of every thread that has no
+/// thread-local handler. Serialised: a second caller waits for the first.
+pub fn with_global_handler<R>(handler: GlobalHandler, body: impl FnOnce() -> R) -> R {
+    let _gate = GLOBAL_GATE.lock().unwrap_or_else(|e| e.into_inner());
+    install();
+    *GLOBAL.lock().unwrap_or_else(|e| e.into_inner()) = Some(handler);
+    let r = body();
+    *GLOBAL.lock().unwrap_or_else(|e| e.into_inner()) = None;
     r
 }
